@@ -69,6 +69,15 @@ def check_table(F, where, t):
 
 
 def check_image(F, where, im):
+    start = len(F)
+    try:
+        _check_image(F, where, im)
+    finally:
+        for f in F[start:]:
+            f.setdefault("cls", type(im).__name__)
+
+
+def _check_image(F, where, im):
     cls = type(im).__name__
     for name in ("get_content_type", "get_caption", "get_description"):
         ok, v = call(F, f"{where}.{name}()", getattr(im, name))
@@ -458,8 +467,47 @@ def find_damaged_member(file_key, kinds=("image-number",)):
         if bad:
             return {"reproduced": True, "target": f"sharepoint2text extractor for {rel.split('.')[-1]}",
                     "inputs": {"fixture": "tests/resources/" + rel, "mutation": "CRC-32 of picture members flipped (local header + central directory)", "members": hit},
-                    "expected": "image numbers are positive integers", "observed": f"{bad[0]['where']}: {bad[0]['detail']}"}
+                    "expected": "every image: number >= 1, size_bytes == len(get_bytes()), accessors total", "observed": f"{bad[0]['where']}: {bad[0]['detail']}"}
     return {"reproduced": False, "note": "damaged picture members: interface honoured"}
+
+
+def garble_pictures(path, pred):
+    """The document with every picture member replaced by bytes of no known image format and every drawing extent (cx / cy,
+    svg:width / svg:height) zeroed: the readers have to fall back to whatever they do when dimensions are unknown."""
+    import re
+    src = zipfile.ZipFile(path)
+    buf = io.BytesIO()
+    hit = []
+    with zipfile.ZipFile(buf, "w", zipfile.ZIP_DEFLATED) as z:
+        for zi in src.infolist():
+            data = src.read(zi.filename)
+            if pred(zi.filename) and not zi.filename.endswith("/"):
+                data = b"\x00\x01not-an-image\x02" + bytes(range(40))
+                hit.append(zi.filename)
+            elif zi.filename.endswith(".xml") and ("drawing" in zi.filename or zi.filename in ("content.xml", "word/document.xml") or "slides/slide" in zi.filename):
+                data = re.sub(rb'\b(cx|cy)="\d+"', lambda m: m.group(1) + b'="0"', data)
+            z.writestr(zi, data)
+    return buf.getvalue(), hit
+
+
+def find_garbled_pictures(file_key, kinds=("accessor-raises",)):
+    for rel, pred, key in DAMAGED:
+        if key not in file_key and "data_types" not in file_key:
+            continue
+        f = os.path.join(RES, rel)
+        if not os.path.exists(f):
+            continue
+        try:
+            data, hit = garble_pictures(f, pred)
+            F = failures_of(data, f)
+        except Exception:  # noqa
+            continue
+        bad = [x for x in F if x["kind"] in kinds]
+        if bad:
+            return {"reproduced": True, "target": f"sharepoint2text extractor for {rel.split('.')[-1]}",
+                    "inputs": {"fixture": "tests/resources/" + rel, "mutation": "picture members replaced by bytes of no known image format, drawing extents zeroed", "members": hit},
+                    "expected": "every image: accessors total, number >= 1, size_bytes == len(get_bytes())", "observed": f"{bad[0]['where']}: {bad[0]['detail']}"}
+    return {"reproduced": False, "note": "garbled pictures: interface honoured"}
 
 
 def blip_stream():
@@ -712,6 +760,10 @@ def sweep(kinds=None, cls=None, fixtures_only=False):
             f = os.path.join(RES, rel)
             if os.path.exists(f):
                 docs.append((f, corrupt_crc(open(f, "rb").read(), pred)[0]))
+                try:
+                    docs.append((f, garble_pictures(f, pred)[0]))
+                except Exception:  # noqa
+                    pass
     for name, data in docs:
         for path in ("<same>", None):
             try:
@@ -721,16 +773,139 @@ def sweep(kinds=None, cls=None, fixtures_only=False):
             for x in F:
                 if kinds and x["kind"] not in kinds:
                     continue
-                if cls and x.get("cls") not in (None, cls):
+                if cls and x.get("cls") != cls:
                     continue
                 out.append(dict(x, file=name.replace(REPO + "/", ""), path_given=path is not None))
     return out
 
 
+# ------------------------------------------------------ content small scope --
+def content_scope():
+    """Hand-built, well-typed content objects (BOUNDED small scope): every content class with its defaults; DocContent over all
+    texts of up to 3 lines from a small grammar (heading lines, body lines, blank, a line that spells a table) x images x tables."""
+    from sharepoint2text.parsing.extractors import data_types as dt
+    import dataclasses
+    import itertools
+    for name, cls in sorted(vars(dt).items()):
+        if isinstance(cls, type) and dataclasses.is_dataclass(cls) and name.endswith("Content") and hasattr(cls, "iterate_units"):
+            try:
+                yield f"{name}()", cls()
+            except TypeError:
+                pass
+    lines = ["Chapter 1", "Subsection A", "intro", "body text", "", "a b"]
+    img = lambda cap: dt.DocImage(image_number=1, content_type="image/png", data=b"x", size_bytes=1, caption=cap)  # noqa: E731
+    for n in range(0, 4):
+        for combo in itertools.product(lines, repeat=n):
+            text = "\n".join(combo)
+            for images in ([], [img("")], [img("body")]):
+                for tables in ([], [[["a", "b"]]]):
+                    yield f"DocContent(main_text={text!r}, images={len(images)}, tables={len(tables)})", dt.DocContent(main_text=text, images=list(images), tables=list(tables))
+
+
+def find_content_scope(limit=None):
+    n = 0
+    for label, obj in content_scope():
+        n += 1
+        F = check_result(obj)
+        bad = [f for f in F if f["kind"] in ("accessor-raises", "not-str", "not-wf", "unit-number", "image-number", "image-size", "bytes", "dim")]
+        if bad:
+            return {"reproduced": True, "target": "data_types.py content classes (hand-built instances)", "inputs": {"object": label},
+                    "expected": "every accessor of the result, its units, images and tables honours the interface", "observed": f"{bad[0]['where']}: {bad[0]['detail']}",
+                    "instances_tried": n}
+    return {"reproduced": False, "note": f"{n} hand-built content objects honour the interface", "instances": n}
+
+
+# --------------------------------------------------------------- isolation --
+META_MEMBERS = ("meta.xml", "docProps/core.xml", "docProps/app.xml")
+
+
+def strip_metadata_members(path):
+    """The document without its metadata parts (meta.xml / docProps/*): damaged or minimal but still accepted."""
+    try:
+        src = zipfile.ZipFile(path)
+    except Exception:  # noqa
+        return None
+    if not any(n in META_MEMBERS for n in src.namelist()):
+        return None
+    buf = io.BytesIO()
+    try:
+        with zipfile.ZipFile(buf, "w", zipfile.ZIP_DEFLATED) as z:
+            for zi in src.infolist():
+                if zi.filename in META_MEMBERS:
+                    continue
+                z.writestr(zi, src.read(zi.filename))
+    except Exception:  # noqa -- a fixture that is itself a damaged archive
+        return None
+    return buf.getvalue()
+
+
+def path_fields(md):
+    return tuple(getattr(md, f, "<missing>") for f in ("filename", "file_extension", "file_path", "folder_path"))
+
+
+def isolation_failures(data, name):
+    """Three extractions of the same bytes in one process: with path A, with no path, with path B.  No result may see another
+    extraction's path: the path-less one reports all None, the earlier ones keep what they reported."""
+    import sharepoint2text
+    out = []
+    ex = sharepoint2text.get_extractor(name)
+    ext = os.path.splitext(name)[1]
+    pa, pb = "first/dir/alpha" + ext, "/other/place/beta" + ext
+    try:
+        ra = list(ex(io.BytesIO(data), pa))
+        snap = [path_fields(r.get_metadata()) for r in ra]
+        rn = list(ex(io.BytesIO(data), None))
+        rb = list(ex(io.BytesIO(data), pb))
+    except Exception:  # noqa -- refused input: not a result
+        return out
+    if name.lower().endswith(ARCHIVE_EXT):
+        return out
+    for i, r in enumerate(rn):
+        v = path_fields(r.get_metadata())
+        if any(x is not None for x in v):
+            out.append({"kind": "shared-metadata", "where": f"{type(r).__name__}.get_metadata()", "detail": f"extracted without a path after an extraction with path {pa!r}: reports {v!r}"})
+    for i, r in enumerate(ra):
+        v = path_fields(r.get_metadata())
+        if v != snap[i]:
+            out.append({"kind": "shared-metadata", "where": f"{type(r).__name__}.get_metadata()", "detail": f"result of the extraction with path {pa!r} now reports {v!r} (was {snap[i]!r}) after later extractions"})
+    for i, r in enumerate(rb):
+        v = path_fields(r.get_metadata())
+        if v[0] != os.path.basename(pb):
+            out.append({"kind": "shared-metadata", "where": f"{type(r).__name__}.get_metadata()", "detail": f"extracted with path {pb!r}: reports {v!r}"})
+    return out
+
+
+def isolation_documents(module_key=None):
+    import sharepoint2text
+    for f in fixture_files():
+        try:
+            mod = sharepoint2text.get_extractor(f).__module__
+        except Exception:  # noqa
+            continue
+        if module_key and module_key not in mod and not (module_key == "_shared" and "open_office" in mod):
+            continue
+        data = open(f, "rb").read()
+        yield f, "fixture", data
+        stripped = strip_metadata_members(f)
+        if stripped is not None:
+            yield f, "metadata parts (meta.xml / docProps/*) removed", stripped
+
+
+def find_isolation(ob):
+    key = ob.split("C04/")[1].split(".py")[0] if "C04/" in ob else None
+    for f, what, data in isolation_documents(key):
+        bad = isolation_failures(data, f)
+        if bad:
+            return {"reproduced": True, "target": "sharepoint2text extractor, three extractions in one process (path A, no path, path B)",
+                    "inputs": {"fixture": f.replace(REPO + "/", ""), "variant": what}, "expected": "each result reports only its own path argument (all None without path)",
+                    "observed": f"{bad[0]['where']}: {bad[0]['detail']}"}
+    return {"reproduced": False, "note": "repeated extractions: no result sees another extraction's path"}
+
+
 # ---------------------------------------------------------------- metadata --
-def find_metadata(reader):
+def find_metadata(reader, strings=None):
     from replay import c04_meta
-    return c04_meta.find(reader)
+    return c04_meta.find(reader, strings)
 
 
 # -------------------------------------------------------------------- find --
@@ -743,6 +918,9 @@ def find(req):
         return known(req["known_finding"])
     if req.get("sweep"):
         s = sweep(fixtures_only=bool(req.get("fixtures_only")))
+        for f, what, data in isolation_documents():
+            for x in isolation_failures(data, f):
+                s.append(dict(x, file=f.replace(REPO + "/", "") + f" [{what}]"))
         from replay import c04_meta
         for r in list(c04_meta.CASES) + ["rtf"]:            # documents with known properties: reported unchanged
             try:
@@ -780,37 +958,35 @@ def find(req):
         if "mbox_email_extractor" in ob:
             return find_mbox(fn, k)
         return {"reproduced": False, "note": "no crafted input for this decode site"}
-    if "-positive@" in ob:
-        r = find_damaged_member(ob)
-        if r["reproduced"]:
-            return r
-        rb = find_blip(ob)
-        if rb["reproduced"]:
-            return rb
+    if "/call-pre#" in ob and any(t in ob for t in ("-positive@", "size_bytes-is-len-of-payload", "-invariants@", "#store-", "class-used-as-a-value",
+                                                      "not-from-a-None-source")):
+        # image objects built at (or rewritten after) a constructor site: documents that reach the error branches (pictures that
+        # cannot be read, pictures of an unknown format without extents), a hand-built OfficeArt stream, then every fixture
+        kinds = ("image-number", "image-size", "bytes", "accessor-raises", "not-str")
+        for r in (find_damaged_member(ob, kinds), find_garbled_pictures(ob, kinds), find_blip(ob)):
+            if r["reproduced"]:
+                return r
         cls = ob.split("#")[1].split("-")[0]
-        s = sweep(kinds=("image-number",), cls=cls)
+        cls = cls if cls[:1].isupper() else None
+        s = sweep(kinds=kinds, cls=cls)
         if s:
-            return {"reproduced": True, "target": ob, "inputs": {"file": s[0]["file"]}, "expected": "image number >= 1", "observed": f"{s[0]['where']}: {s[0]['detail']}"}
-        return r
-    if "size_bytes-is-len-of-payload" in ob or "#store-" in ob:
-        r = find_blip(ob)
-        if r["reproduced"]:
-            return r
-        cls = ob.split("#")[1].split("-")[0] if "size_bytes" in ob else None
-        s = sweep(kinds=("image-size", "bytes", "image-number"), cls=cls)
-        if s:
-            return {"reproduced": True, "target": ob, "inputs": {"file": s[0]["file"]}, "expected": "size_bytes == len(payload)", "observed": f"{s[0]['where']}: {s[0]['detail']}"}
-        return {"reproduced": False, "note": "fixtures: every image reports the length of its payload"}
+            return {"reproduced": True, "target": ob, "inputs": {"file": s[0]["file"]}, "expected": "size_bytes == len(payload), number >= 1, accessors total",
+                    "observed": f"{s[0]['where']}: {s[0]['detail']}"}
+        return {"reproduced": False, "note": "damaged / garbled pictures, BLIP stream and fixtures: every image honours the interface"}
     if ".get_dim/" in ob:
         return find_table(ob.split("::")[1].split(".")[0])
     if ".get_bytes/" in ob:
         return find_image(ob.split("::")[1].split(".")[0])
+    if "small-scope-accessor-totality" in ob or req.get("content_scope"):
+        return find_content_scope()
+    if "populate_from_path-receiver" in ob:
+        return find_isolation(ob)
     if "populate_from_path" in ob or "path-fields-default" in ob:
         return find_path()
     if "_odf_length_to_px" in ob or "length-helper" in ob or "OpenDocumentImage.get_metadata" in ob:
         return find_odf_length(ob.split("::")[1].split("/")[0])
     if "/metadata-copied" in ob or "metadata#" in ob:
-        return find_metadata(ob)
+        return find_metadata(ob, (hint or {}).get("strings"))
     if "data_types.py::" in ob and ("/raises" in ob or "/ensures#returns" in ob):
         q = ob.split("::")[1].split("/")[0]
         if "." in q:
@@ -829,6 +1005,10 @@ def known(fid):
     """Witness replay of a recorded known finding."""
     if fid.startswith("C04-html-charset"):
         return find_html()
+    if fid.startswith("C04-doc-heading-only"):
+        return find_content_scope()
+    if fid.startswith("C04-xlsx-image-dimensions"):
+        return find_garbled_pictures("xlsx_extractor", ("accessor-raises",))
     if fid.startswith("C04-mbox-charset"):
         return find_mbox()
     return {"reproduced": False, "note": "unknown finding"}
